@@ -169,3 +169,24 @@ From DK.Proofs Require Import Hom HomLeaf HomHess.
 Theorem C14_instances_agree_leaf_hess : forall (L : leafdev Q) (s : list Q), exec_kind (ld_kind L) (List.length s) ->
   List.map (List.map Q2R) (leaf_hess L s) = leaf_hess (mleaf L) (List.map Q2R s).
 Proof. exact instances_agree_leaf_hess. Qed.
+
+(* ---- the three preference functions whose Hessian the source obtains by numerical differentiation (InformationEntropy,
+   TemporalVariance, CobbDouglas): the closed-form Hessians of Model/Trans.v are the Jacobians of the closed-form gradients (the
+   total derivatives of the costs, C01), entry by entry, for every length, and symmetric; the implementation's numerical Hessian is
+   compared with them by interval arithmetic inside Coq. Proofs/TransHess.v ---- *)
+From DK.Model Require Import Trans.
+From DK.Proofs Require Import Total TransProofs TransHess.
+Local Open Scope R_scope.
+Theorem C14_temporal_variance : forall c (x : list R), vsum x <> 0 ->
+  hess_at (tvar_grad c) (tvar_hess c x) x /\ C14Proofs.symmetric (tvar_hess c x).
+Proof. intros c x H. split; [now apply tvar_hessian|apply tvar_hess_symmetric]. Qed.
+Theorem C14_information_entropy : forall c (x : list R), x <> [] -> (forall k, (k < length x)%nat -> nth k x 0 <> 0) ->
+  hess_at (entropy_grad c) (entropy_hess c x) x /\ C14Proofs.symmetric (entropy_hess c x).
+Proof. intros c x H1 H2. split; [now apply entropy_hessian|apply entropy_hess_symmetric]. Qed.
+Theorem C14_cobb_douglas : forall c (a x : list R), length a = length x -> (forall k, (k < length x)%nat -> 0 < nth k x 0) ->
+  hess_at (cobb_grad c a) (cobb_hess c a x) x /\ C14Proofs.symmetric (cobb_hess c a x).
+Proof. intros c a x H1 H2. split; [now apply cobb_hessian|apply cobb_hess_symmetric]. Qed.
+Theorem C14_jacobian_from_directional_derivatives : forall (G : list R -> list R) (H : list (list R)) (x : list R),
+  length H = length x -> (forall j, (j < length x)%nat -> length (nth j H []) = length x) ->
+  (forall j, (j < length x)%nat -> dir_at (fun y => nth j (G y) 0) (nth j H []) x) -> hess_at G H x.
+Proof. exact hess_at_of_dirs. Qed.
